@@ -43,6 +43,12 @@ func newVfFixture(name string, listenAddr string, udpPort int, backends []string
 	return &vfFixture{proxy: p, item: item, trans: item.transports[0], slr: slr}, nil
 }
 
+// startUDP opens the listener's UDP socket as Start() does in the binary, so
+// that sending from the listener socket (learned hops) works as in production.
+func (f *vfFixture) startUDP() error {
+	return f.trans.Start(f.proxy)
+}
+
 // inject parses raw like the UDP listener and queues it for the loop.
 func (f *vfFixture) inject(peerAddr string, peerPort int, raw []byte) error {
 	m, err := vfParseUDP(raw)
